@@ -200,7 +200,11 @@ func c01Associativity(c *Ctx) {
 	c.Check(inLoop, "assoc", "hclsyntax.parser.parseBinaryOps:loop", fn.Pos(), "same-level operators are folded in a loop", "parseBinaryOps no longer loops over operators of its own level")
 	// ternary starts with the whole table
 	whole := false
-	for _, b := range tern.Blocks {
+	var ternBlocks []*ssa.BasicBlock
+	for _, f := range append([]*ssa.Function{tern}, tern.AnonFuncs...) {
+		ternBlocks = append(ternBlocks, f.Blocks...)
+	}
+	for _, b := range ternBlocks {
 		for _, ins := range b.Instrs {
 			if call, ok := ins.(*ssa.Call); ok && call.Call.StaticCallee() == fn {
 				if u, ok := call.Call.Args[1].(*ssa.UnOp); ok {
